@@ -252,7 +252,7 @@ def make_case(rng):
     r = rng.random()
     if r < 0.45:
         family = "N"
-        spec, steady, meta = F.family_N(rng, measurement=bool(rng.random() < 0.3))
+        spec, steady, meta = F.family_N(rng, measurement=bool(rng.random() < 0.3), exog=bool(rng.random() < 0.4))
     elif r < 0.7:
         family = "L"
         spec, meta = F.family_L(rng, unit_root=False, measurement=bool(rng.random() < 0.3))
@@ -285,6 +285,8 @@ def make_case(rng):
     return {"kind": "nonlinear-sim", "family": family, "method": method, "spec": spec, "steady": steady, "meta": meta, "source": rr["source"],
             "T": T, "unant": unant, "ant": ant, "opts": opts, "init": init, "terminal_data_from_first_order": bool(rng.random() < 0.5),
             "hist": int(rng.integers(0, 2 ** 31)) if rng.random() < 0.3 else None,
+            # a path for every exogenous variable (pre-sample period, span and the periods after it)
+            "exog_paths": {q["name"]: [float(np.round(rng.normal(0, 0.05), 5)) for _ in range(T + 4)] for q in spec["exog"]},
             "unant2": ([[shocks[int(rng.integers(0, len(shocks)))], int(rng.integers(0, T)), float(np.round(rng.normal(0, scale) * rng.uniform(0.1, 3), 5))]
                         for _ in range(int(rng.integers(1, 4)))] if (method == "stacked_time" and rng.random() < 0.3) else None)}
 
@@ -307,6 +309,8 @@ def run_case(c, case):
                     for n, (lvl, chg) in case["steady"].items():
                         fix = case["meta"].get("fix", {})
                         guess[n] = (fix.get(n, lvl if lvl is not None else 1.0), chg)
+                    for q in spec["exog"]:
+                        guess[q["name"]] = (0.0, 0.0)
                     m.assign(**guess)
                     if family == "G":
                         plan = ir.SteadyPlan(m)
@@ -350,6 +354,9 @@ def run_case(c, case):
             db[name][start + t] = val
         for name, t, val in case["ant"]:
             db["ant_" + name][start + t] = val
+        for name, vals in (case.get("exog_paths") or {}).items():
+            for k_, v_ in enumerate(vals):
+                db[name][start - 1 + k_] = v_
         opts = dict(case["opts"])
         ss = dict(opts.get("solver_settings") or {})
         if ss.get("step_tolerance") == "inf":
